@@ -113,13 +113,15 @@ static void vf_bfs_run(struct vf_domain* d) {
     if ((s & 255) == 0 && vf_deadline_hit()) { vf_note("%s: global deadline hit at state %zu of %zu discovered", d->name, s, vf_bfs_n); break; }
     size_t n = vf_bfs_history((uint32_t)s, ops, 4096);
     int verified = 0;
+    int intact = 0;   /* the live objects are still in state s (the last operation was not enabled, or was a self-loop) */
     for (int op = 0; op < d->nops; op++) {
       vf_watchdog(60);
       vf_bfs_setcur(d, ops, n, op);
-      if (vf_bfs_replay(d, ops, n) != VF_OK) {
+      if (!intact && vf_bfs_replay(d, ops, n) != VF_OK) {
         fprintf(stderr, "vf_bfs[%s]: replay of a stored clean state reported a violation (nondeterminism): %s\n", d->name, vf_cur);
         _exit(2);
       }
+      intact = 0;
       if (!verified) {
         d->canon(vf_bfs_canon2, sizeof vf_bfs_canon2);
         long idx = vf_set_get(&vf_bfs_seen, vf_bfs_canon2);
@@ -130,7 +132,7 @@ static void vf_bfs_run(struct vf_domain* d) {
         verified = 1;
       }
       int r = d->apply(op);
-      if (r == VF_SKIP) { d->cleanup(); continue; }
+      if (r == VF_SKIP) { intact = 1; continue; }   /* nothing happened: the next operation starts from the same live state */
       vf.transitions++;
       vf.executions++;
       int bad = (r == VF_BAD);
@@ -142,6 +144,7 @@ static void vf_bfs_run(struct vf_domain* d) {
       }
       d->canon(vf_bfs_canon, sizeof vf_bfs_canon);
       long idx = vf_set_put(&vf_bfs_seen, vf_bfs_canon, (uint32_t)vf_bfs_n);
+      if (idx == (long)s) { intact = 1; continue; }   /* self-loop (a query, a refused operation): same concrete state, keep it */
       if (idx < 0) {
         if (vf_bfs_n == vf_bfs_cap) { vf_bfs_cap *= 2; vf_bfs_states = realloc(vf_bfs_states, vf_bfs_cap * sizeof *vf_bfs_states); }
         uint32_t depth = vf_bfs_states[s].depth + 1;
@@ -157,6 +160,7 @@ static void vf_bfs_run(struct vf_domain* d) {
       d->cleanup();
       if (d->max_states && vf_bfs_n >= d->max_states) break;
     }
+    if (intact) d->cleanup();
     if (d->max_states && vf_bfs_n >= d->max_states) {
       vf.exhaustive = 0;
       vf_note("%s: state cap %zu hit; states up to BFS index %zu fully expanded", d->name, d->max_states, s);
